@@ -4,6 +4,15 @@ import json, os
 V = os.path.dirname(os.path.dirname(os.path.abspath(__file__)))
 
 CHECKS = {
+ "C13": dict(
+    technique="runtime shadow-twin monitor: aged registry vs fresh twin at the same declarative state after every state change; counting cache proxies",
+    text="Histories over the default registry interleave a pool of 46 read-only questions (convert, parse, base/root units, dimensionality, compatible units, format, to_compact, "
+         "to_base_units) with state changes (define, enable/disable rule and redefining contexts, default_system, creating and using a second registry that defines the same names "
+         "differently). Each answer is compared with a fresh twin brought to the same declarative state that is asked each question once. State-change prefixes are enumerated "
+         "exhaustively up to length 2 (quick) / 3 (thorough) with the whole pool re-asked after every change; random histories up to length 60. Counting dict proxies in the "
+         "registry's memo layers show the compared answers were cache hits.",
+    note="define-twin (same define() calls), so the loading-path finding D11 is not re-reported; one recorded finding shared with C12 (define inside a redefining context)",
+    ref="4/C13"),
  "C12": dict(
     technique="runtime reference stack machine + fresh-twin probe battery over exhaustively enumerated operation sequences with injected failing activations; context fingerprints",
     text="All operation sequences up to length 3 (quick, length 4 sampled) / 5 (thorough) over 13 operations (enable with/without parameters, enable of two invalid contexts, a two-name "
